@@ -8,6 +8,7 @@
                      rendered; C05_forced: once a level is rendered, every inner level with a value is
                      re-rendered; C05_unchanged: nothing is rendered when no level changed;
      C05_divider     '-----' values are filtered from the heading values (page top and in-page);
+     C05_divider_cost  (Proofs/DividerProofs.v) a row whose grouping values are all '-----' is budgeted with its data lines only;
      C05_followed    in-page boundaries are strictly increasing and lie strictly inside the page, so the
                      headings of a boundary are directly followed by the first data row of the new group.
    The page-top headings are group_values of the page's FIRST row (pc_pbinfo), rendered by top_headings
@@ -23,7 +24,7 @@
    preceding level-l heading row on the page shows v_l(r)"), which check_c05 evaluates on the implementation. *)
 From Coq Require Import Ascii String.
 From Coq Require Import List NArith ZArith QArith Bool Arith.
-From V Require Import Str Num Tok Items Doc Encode Paginate Pipeline HeadingProofs StateProofs.
+From V Require Import Str Num Tok Items Doc Encode Paginate Pipeline HeadingProofs StateProofs DividerProofs.
 Import ListNotations.
 Local Open Scope string_scope.
 Local Open Scope list_scope.
@@ -57,6 +58,16 @@ Proof. exact plan_unchanged. Qed.
 Theorem C05_divider : forall cols keys row k v,
   In (k, v) (group_values cols keys row) -> str_eqb (py_str v) divider = false.
 Proof. exact group_values_no_divider. Qed.
+
+(* ... and never cost a data row: a row all of whose page_by and subline_by values are the divider is budgeted with its data
+   lines only (the metadata that the page assignment of C04 consumes), whether or not it starts a group *)
+Theorem C05_divider_cost : forall widths fonts sizes i cols removed cw pb sl row rest pbc slc m ms,
+  metas widths fonts sizes i cols removed cw pb sl (row :: rest) pbc slc = Ok (m :: ms) ->
+  (forall keys, pb = Some keys -> all_divider cols keys row) ->
+  (forall keys, sl = Some keys -> all_divider cols keys row) ->
+  rm_pb m = 0%Z /\ rm_sl m = 0%Z /\ rm_total m = rm_data m.
+Proof. exact divider_row_costs_its_lines. Qed.
+Print Assumptions C05_divider_cost.
 
 Theorem C05_followed : forall f keys start len,
   (Forall (fun b => 1 <= fst b < len) (boundaries f keys start len) \/ boundaries f keys start len = [])
